@@ -457,14 +457,15 @@ Qed.
 Lemma with_layers_keeps (Iv : wpred) um body s :
   Iv (s_w s) ->
   (forall ld, LDI (skel (read_layer_files c (w_fs (s_w s)))) ld ->
-     check_inheritance (read_layer_files c (w_fs (s_w s))) = true -> hs Iv false (body ld) (fun _ => True)) ->
+     check_inheritance (read_layer_files c (w_fs (s_w s))) = true -> paths_ok c (ld_map ld) ->
+     hs Iv false (body ld) (fun _ => True)) ->
   Iv (s_w (snd (with_layers c um body s))).
 Proof.
   intros HI Hb. unfold with_layers, bind at 1, get_fs. cbv beta iota.
   rewrite guard_k. destruct (base_set_up c (w_fs (s_w s))); [|exact HI].
   unfold bind at 1. destruct (get_layers_spec c um s) as (o & E & Ho). rewrite E.
   destruct o as [ld| | | |]; try exact HI.
-  destruct Ho as (HLD & HC & _). pose proof (hs_state Iv (body ld) _ s (Hb ld HLD HC) HI) as H.
+  destruct Ho as (HLD & HC & _). pose proof (hs_state Iv (body ld) _ s (Hb ld HLD HC (get_layers_paths _ _ _ _ _ E)) HI) as H.
   unfold bind. destruct (body ld s) as [[ld'| | | |] s']; exact H.
 Qed.
 
@@ -615,5 +616,86 @@ Proof.
   apply renormalize_keeps.
 Qed.
 End AddCmd.
+
+(* ------------------------------------------------------------------ rebase *)
+Section RebaseCmd.
+Variables (f0 : fsT) (a b : bytes).
+Hypothesis Hc0 : fs_clean f0.
+Hypothesis Hn0 : nolink f0.
+
+Definition PReb (v : option bytes) : Prop := v = cfgbase f0 a \/ v = Some b.
+Definition RebFacts : Prop :=
+  plain a /\ legal_name a = true /\ hasdir a f0 /\ G f0 a = cfgbase f0 a /\ gforest (g_add (G f0) a b).
+Definition IvReb (w : world) : Prop := w_fs w = f0 \/ (RebFacts /\ Inv1 f0 a PReb w).
+
+Lemma reb_inv_of w : RebFacts -> IvReb w -> Inv1 f0 a PReb w.
+Proof.
+  intros HF [E|[_ H]]; [|exact H]. unfold Inv1. rewrite E. split; [now apply IB_refl|]. split; [now left|auto].
+Qed.
+
+Lemma reb_write_cfg_step e l : RebFacts -> l_path l = layer_path c a -> l_base l = b -> mounts_ok l ->
+  hs IvReb false (write_layerfile e l) (fun _ => True).
+Proof.
+  intros HF Ep Eb (Hb & Hm & He). pose proof HF as (Pn & _). unfold write_layerfile.
+  rewrite (layerconfig_path_eq l a Ep Pn). apply hs_true.
+  apply (write_atomically_rule IvReb (fun x w => Tv1 f0 a PReb x w)); rewrite ?tmp_path_eq.
+  - intros w w' HI E. eapply tv_open; eauto. now apply reb_inv_of.
+  - intros x ch w HT. now apply tv_append.
+  - intros x w HT. right. split; [exact HF|]. eapply tv_drop; eauto.
+  - intros w w' HT E. right. split; [exact HF|].
+    destruct (tv_rename f0 a PReb Pn _ w w' HT E) as (H1 & H2 & H3). split; [exact H1|]. split; [|exact H3].
+    right. rewrite H2, layerfile_roundtrip by assumption. cbn [lf_base]. now rewrite Eb.
+  - intros x w [HT _]. right. now split.
+Qed.
+
+Lemma reb_final w : IvReb w -> gforest (G f0) -> gforest (G (w_fs w)).
+Proof.
+  intros [->|((Pn & Ln & Hd & Hg & HGa) & (HI & HP & HD))] HG; [exact HG|].
+  assert (Hout : forall x, x <> a -> G (w_fs w) x = G f0 x).
+  { intros x Hx. apply (G_out [a]); auto.
+    - apply (ib_clean _ _ _ HI).
+    - apply (ib_nolink _ _ _ HI).
+    - apply (ib_part _ _ _ HI).
+    - intros y [<-|[]]. exact Pn.
+    - intros [E|[]]. congruence. }
+  destruct (HD Hd) as (m0 & Hm0).
+  pose proof (G_of_cfgbase (w_fs w) a m0 (ib_clean _ _ _ HI) (ib_nolink _ _ _ HI) Pn Ln Hm0) as Ega.
+  destruct HP as [HP|HP].
+  - apply (gforest_ext (G f0)); [|exact HG]. intros x. destruct (beq a x) eqn:Ex.
+    + apply beq_true in Ex. subst x. congruence.
+    + apply beq_false in Ex. symmetry. apply Hout. congruence.
+  - apply (gforest_ext (g_add (G f0) a b)); [|exact HGa].
+    intros x. unfold g_add. destruct (beq a x) eqn:Ex.
+    + apply beq_true in Ex. subst x. congruence.
+    + apply beq_false in Ex. symmetry. apply Hout. congruence.
+Qed.
+
+Lemma rebase_layer_keeps e ld :
+  LDI (skel (read_layer_files c f0)) ld -> paths_ok c (ld_map ld) ->
+  hs IvReb false (rebase_layer e c ld a b) (fun _ => True).
+Proof.
+  intros [Hs HW] HPa. unfold rebase_layer.
+  apply hs_guard_k. intros G0. apply andb_true_iff in G0 as [G1 G2].
+  apply test_name_need in G1 as (Ha & La & l & El). apply test_name_opt in G2. rewrite El.
+  apply hs_guard_k. intros _. apply hs_guard_k. intros _. cbv zeta. apply hs_guard_k. intros Gc.
+  apply hs_guard_k. intros _.
+  assert (Hg : forall x, g_of (ld_map ld) x = G f0 x) by (intros x; now apply skel_g).
+  pose proof (lm_get_name _ _ _ El) as Ena. pose proof (lm_get_in _ _ _ El) as Hin.
+  assert (Hga : G f0 a = Some (l_base l)) by (rewrite <- Hg; apply g_of_some; eauto).
+  destruct (G_some_child f0 a _ Hc0 Hn0 Hga) as (Pa & _ & Hd & Hcb).
+  assert (HF : RebFacts).
+  { split; [exact Pa|]. split; [exact La|]. split; [exact Hd|]. split; [congruence|].
+    apply (gforest_ext (g_of (lm_set (ld_map ld) (set_base l b)))).
+    - intros x. rewrite g_of_set. cbn [set_base l_name l_base]. unfold g_add. rewrite Ena. now rewrite Hg.
+    - now apply allreach_gforest, check_inh_allreach. }
+  eapply hs_bind; [apply renormalize_keeps|]. intros ld' _.
+  apply hs_seq; [|now apply hs_ret].
+  apply reb_write_cfg_step; auto.
+  - cbn [set_base l_path]. rewrite (HPa l Hin). now rewrite Ena.
+  - destruct (HW l Hin) as (_ & H1 & H2). split; [|now split]. cbn [set_base l_base].
+    destruct b as [|b0 br]; [now left|right]. destruct G2 as [G2|(Lb & _)]; [discriminate|].
+    apply legal_tok; [exact Lb|discriminate].
+Qed.
+End RebaseCmd.
 
 End WithCfg.
